@@ -46,6 +46,8 @@ int FN(synth)(const char* type, unsigned vi, const unsigned char* tape, size_t t
 	for (auto& e : sf.subject.trace) {
 		tr.push_back(static_cast<char>(e.hint));
 		tr.append(reinterpret_cast<const char*>(&e.size), 4);
+		tr.append(reinterpret_cast<const char*>(&e.alloc), 4);
+		tr.append(reinterpret_cast<const char*>(&e.offset), 4);
 	}
 	*trace = dup(tr, traceLen);
 	return 1;
